@@ -426,6 +426,16 @@ def check_sinks_mode(ctx, prog, I, gold, step, kind, sqi=None, pc=None, detail_s
                 pb_ = push[d][0][3].bits[s]
                 if pb_ is not C0:
                     okdup = ((('#', pb_.n), False) in B.must(gate)) or B.band(gate, pb_) is C0
+                    if not okdup:
+                        # the same exclusion written differently (e.g. a mask test instead of a list lookup): compare the bits
+                        dd = I.decide(B.band(gate, pb_), ())
+                        okdup = dd is False
+                        if not okdup:
+                            neg = [v[1] for (v, p_) in B.must(gate) if v[0] == '#' and not p_]
+                            ctx.notes.append('GATE must %r' % (sorted(B.must(gate), key=repr),))
+                            ctx.notes.append('pull-dup debug: neg %r conj %r ; pb conj %r pb.n %r; M(band) has %r' % (
+                                neg, [sorted(B.CONJ.get(n_, ()), key=repr) for n_ in neg], sorted(B._conjset(pb_), key=repr), pb_.n,
+                                sorted([l for l in B.must(B.band(gate, pb_)) if l[0][0] == '#'], key=repr)))
             ctx.ob('[%s] pull %s%s: enemy literal, footprint, not duplicating the push start' % (mode, G.name(s), d),
                    okm and okd and okdup, sample=(d == 'Right'))
             if not okm:
@@ -433,6 +443,15 @@ def check_sinks_mode(ctx, prog, I, gold, step, kind, sqi=None, pc=None, detail_s
                      % (G.name(s), d, fmt_lits(real_lits(gate))))
             if not okd:
                 viol('pull-footprint:%s' % d, 'pull %s%s: footprint %s' % (G.name(s), d, sorted(pd - kinds(ball(s, 2)))[:6] or 'lacks the source square'))
+            if not want_push:
+                # no push start is offered in this mode, so nothing can duplicate the pull: whether it is offered may only depend
+                # on the pulled piece itself (an enemy piece weaker than the piece that just moved away)
+                extra = sorted(pd - kinds([s]))
+                oks = not extra
+                ctx.ob('[%s] pull %s%s depends on the pulled piece only (no push starts in this mode)' % (mode, G.name(s), d), oks)
+                if not oks:
+                    viol('pull-overconstrained:%s' % d, 'pull %s%s is withheld depending on other squares (%s) although no push start '
+                         'can duplicate it at this step' % (G.name(s), d, extra[:6]))
             if not okdup:
                 viol('pull-dup:%s' % d, 'pull %s%s can be listed although the same step is already offered as a push start (duplicate action)'
                      % (G.name(s), d))
@@ -486,8 +505,13 @@ def check_support_argument(ctx, prog):
     sink = []
     I.watch = {'supported_pieces': sink}
     fn = prog.one('GameState::curr_player_non_frozen_pieces')
-    fn2 = prog.one('both_player_supported_pieces')
-    if not (ctx.anchor('fn curr_player_non_frozen_pieces', fn is not None) and ctx.anchor('fn both_player_supported_pieces', fn2 is not None)):
+    fn2 = prog.one('PieceBoardState::trapped_piece_bits')
+    if not (ctx.anchor('fn curr_player_non_frozen_pieces', fn is not None) and ctx.anchor('fn PieceBoardState::trapped_piece_bits', fn2 is not None)):
+        return
+    if prog.one('supported_pieces') is None:
+        # no such helper (any more): nothing to observe; the exact tables (LT.freeze / LT.capture) decide the support clauses
+        ctx.notes.append('C01.2s: the crate has no supported_pieces helper; support is decided by the LT tables only')
+        I.watch = {}
         return
     for gold in (True, False):
         st = State({})
@@ -495,12 +519,13 @@ def check_support_argument(ctx, prog):
         pb = inputs.ref_to(I, st, 'pb', inputs.board(prog))
         I.memo.clear()
         I.call_fn(fn, [gs, pb], st)
+    n_freeze = len(sink)
     st = State({})
     pb = inputs.ref_to(I, st, 'pb', inputs.board(prog))
     I.memo.clear()
-    I.call_fn(fn2, [pb], st)
+    I.call_fn(fn2, [pb], st)      # the capture pass may or may not be written with the helper
     I.watch = {}
-    ctx.floor('calls of supported_pieces observed', len(sink), 4)
+    ctx.floor('calls of supported_pieces observed from the freezing rule', n_freeze, 2)
     for caller, args in sink:
         bv = args[0]
         colours = set()
